@@ -13,7 +13,7 @@ use refimpl as r;
 use refimpl::{Mode, Poly, MODES};
 use serde_json::json;
 
-const RULE: &str = "each case (pk bytes, message, ctx, mode, signature bytes) is given to the crate's verify/hash_verify and to the reference ML-DSA.Verify/HashML-DSA.Verify; booleans must be equal. Classes: (a) honest signatures, (b) byte/bit mutations, (c) degenerate-key (t1=0) forgeries with the largest |z| coefficient placed at gamma1-beta-1 / gamma1-beta / gamma1 / -gamma1+1 and hint weight 0/1/omega-1/omega, (d) six classes of hint-section malformation, each also with c~ computed for the lenient reading so a lenient decoder would answer true, (e) c~ bit flips, (f) ctx lengths around 255/256/512/65536, (g) 4x4 mode cross-verification, (h) sparse-coset adversarial signatures (fixtures), (i) ACVP sigVer vectors via _internal_verify, (j) random pk/sig. Non-trivial = distinct cases of classes (c),(d),(h) plus accepted cases of (a); both verdicts must be observed in (c).";
+const RULE: &str = "each case (pk bytes, message, ctx, mode, signature bytes) is given to the crate's verify/hash_verify and to the reference ML-DSA.Verify/HashML-DSA.Verify; booleans must be equal. Classes: (a) honest signatures, (b) byte/bit mutations, (c) degenerate-key (t1=0) forgeries with the largest |z| coefficient placed at gamma1-beta-1 / gamma1-beta / gamma1 / -gamma1+1 and hint weight 0/1/omega-1/omega, plus forgeries whose w' = A z is steered so that one coefficient decomposes with r0 = 0 / +-1 / +-gamma2 or sits on the r+ - r0 = q-1 corner, with and without a hint on it, (d) six classes of hint-section malformation, each also with c~ computed for the lenient reading so a lenient decoder would answer true, (e) c~ bit flips, (f) ctx lengths around 255/256/512/65536, (g) 4x4 mode cross-verification, (h) sparse-coset adversarial signatures (fixtures), (i) ACVP sigVer vectors via _internal_verify, (j) random pk/sig. Non-trivial = distinct cases of classes (c),(d),(h) plus accepted cases of (a); both verdicts must be observed in (c).";
 
 pub fn run(ctx: &Ctx) -> StageOut {
     let mut acc = Acc::new();
@@ -219,6 +219,60 @@ fn run_set<S: PS>(ctx: &Ctx) -> Acc {
                 let z2: Vec<Poly> = (0..p.l).map(|_| core::array::from_fn(|_| if g.below(2) == 0 { bound - 1 } else { -(bound - 1) })).collect();
                 let sig = gen::forge_degenerate(p, &rho, &mp, &z2, &h, None);
                 let _ = check_case::<S>(&mut acc, "c-boundary-allmax", &dpk, &m, &cx, mode, &sig, true);
+            }
+        }
+
+        // ---------- (c') UseHint / Decompose corners: steer one coefficient of w' = A z exactly onto
+        // r0 = 0, +-1, the ends of the r0 range and the r+ - r0 = q-1 corner, with and without a hint there
+        {
+            let m_hi = (r::Q - 1) / (2 * p.gamma2);
+            let tq = g.range(0, m_hi - 1) * 2 * p.gamma2;
+            let targets: [(&str, i64); 10] = [
+                ("r0=0", tq), ("r0=1", tq + 1), ("r0=-1", tq - 1), ("r0=gamma2", tq + p.gamma2), ("r0=-gamma2+1", tq - p.gamma2 + 1),
+                ("r=0", 0), ("r=q-1", r::Q - 1), ("r=q-gamma2", r::Q - p.gamma2), ("r=q-gamma2-1", r::Q - p.gamma2 - 1), ("r=2gamma2*(m-1)+gamma2", (m_hi - 1) * 2 * p.gamma2 + p.gamma2),
+            ];
+            let (tname, target) = targets[ji % targets.len()];
+            let a_hat = r::expand_a(p, &rho);
+            let k = g.below(p.k as u64) as usize;
+            let n = g.below(256) as usize;
+            let a_row: Vec<Poly> = a_hat[k].iter().map(r::ntt_inv).collect();
+            let mut z: Vec<Poly> = (0..p.l).map(|_| core::array::from_fn(|_| g.range(-(bound - 1) / 2, (bound - 1) / 2))).collect();
+            let t1z = vec![r::ZERO; p.k];
+            let w = r::w_approx(p, &rho, &t1z, &r::ZERO, &z);
+            let delta = (target - w[k][n]).rem_euclid(r::Q);
+            let mut steered = false;
+            'search: for j in 0..p.l {
+                for mpos in 0..256usize {
+                    // coefficient of X^n in X^mpos * a_kj (negacyclic)
+                    let c = if n >= mpos { a_row[j][n - mpos] } else { (r::Q - a_row[j][n + 256 - mpos]) % r::Q };
+                    if c == 0 {
+                        continue;
+                    }
+                    let e = r::mod_pm(delta * r::modpow(c, (r::Q - 2) as u64, r::Q) % r::Q, r::Q);
+                    let nz = z[j][mpos] + e;
+                    if nz.abs() <= bound - 1 {
+                        z[j][mpos] = nz;
+                        steered = true;
+                        break 'search;
+                    }
+                }
+            }
+            if steered {
+                let w2 = r::w_approx(p, &rho, &t1z, &r::ZERO, &z);
+                if w2[k][n] == target.rem_euclid(r::Q) {
+                    for hbit in [1i64, 0] {
+                        let mode = MODES[(ji + hbit as usize) % 4];
+                        let m = gen::message(&mut g, 19);
+                        let mp = r::format_message(mode, &m, &[]).unwrap();
+                        let mut h = gen::hint_with_weight(&mut g, p, 5, 0);
+                        h[k][n] = hbit;
+                        let sig = gen::forge_degenerate(p, &rho, &mp, &z, &h, None);
+                        let _ = check_case::<S>(&mut acc, &format!("c-usehint-corner-{tname}-h{hbit}"), &dpk, &m, &[], mode, &sig, true);
+                        acc.count("usehint_corner_cases", 1);
+                    }
+                } else {
+                    acc.count("usehint_corner_steering_failed", 1);
+                }
             }
         }
 
